@@ -25,7 +25,9 @@ def conservative_network(r, h):
     def k(order):
         return gen.per_env(r, envs, lambda: r.uniform(0.1, 3.0) * typ ** (1 - order) * V ** (order - 1))
     rx = []
-    tmpl = r.choice(["cycle", "binding", "isomer", "dimer", "mixed", "none"])
+    tmpl = r.choice(["cycle", "binding", "isomer", "dimer", "mixed", "none", "wide"])
+    if tmpl == "wide":
+        labels = r.sample(gen.LABELS, r.randint(6, 8))       # one reaction changing five or six species at once
     L = labels
     if tmpl == "cycle" and len(L) >= 3:
         for a, b in zip(L[:3], L[1:3] + L[:1]):
@@ -36,6 +38,13 @@ def conservative_network(r, h):
             rx.append(({L[2]: 1}, {L[3]: 1}))
     elif tmpl == "isomer":
         rx.append(({L[0]: 1}, {L[1]: 1}))
+    elif tmpl == "wide":
+        if r.random() < 0.5:
+            rx.append(({L[0]: 1, L[1]: 1, L[2]: 1}, {L[3]: 1, L[4]: 1, L[5]: 1}))
+        else:
+            rx.append(({L[0]: 1, L[1]: 2}, {L[2]: 1, L[3]: 1, L[4]: 1}))
+        if r.random() < 0.5:
+            rx.append(({L[5]: 1}, {L[0]: 1}))
     elif tmpl == "dimer":
         rx.append(({L[0]: 2}, {L[1]: 1}))
         if len(L) >= 3:
